@@ -1176,6 +1176,329 @@ theorem reshapeNumer_roundtrip {q r r2 : Q0 α} {new : Shape} {cs cs2 : List Cls
   have hlt : ravel q.numer k < size new := s1 ▸ ravel_lt hk
   rw [a7 i _ kd hi (unravel_valid new _ hlt) hkd, ravel_unravel new _ hlt, unravel_ravel hk]
 
+/-! ## extract_numer / to_scalar: one numerator axis is indexed away; leading index and mask untouched -/
+
+/-- the order that brings axis `a` to the front: `[a, 0, …, a-1, a+1, …]` -/
+theorem rollFn_front (a k : Nat) : rollFn a 0 k = if k = 0 then a else if k - 1 < a then k - 1 else k := by
+  unfold rollFn; simp
+
+theorem idxOf_rollFront {n a m : Nat} (ha : a < n) (hm : m < n) :
+    (rollPerm n a 0).idxOf m = if m = a then 0 else if m < a then m + 1 else m := by
+  have hp := rollPerm_isPerm ha (show 0 < n by omega)
+  have key : ∀ k (hk : k < n), (rollPerm n a 0)[k]'(by rw [hp.1]; exact hk) = m → (rollPerm n a 0).idxOf m = k := by
+    intro k hk h
+    rw [← h]; exact hp.2.1.idxOf_getElem _ _
+  have hget : ∀ k (hk : k < n), (rollPerm n a 0)[k]'(by rw [hp.1]; exact hk) = rollFn a 0 k := by
+    intro k hk
+    simp [rollPerm_eq ha (show 0 < n by omega)]
+  split
+  · rename_i h; subst h
+    exact key 0 (by omega) (by rw [hget 0 (by omega), rollFn_front]; simp)
+  · split
+    · exact key (m + 1) (by omega) (by rw [hget _ (by omega), rollFn_front]; simp; omega)
+    · exact key m hm (by rw [hget _ hm, rollFn_front]; split <;> (try split) <;> omega)
+
+/-- the source index of result index `x0 :: j` after rolling axis `a` to the front: `j` with `x0` put back at `a` -/
+theorem unpermute_rollFront {n a : Nat} (x0 : Nat) (j : Index) (ha : a < n) (hj : j.length + 1 = n) :
+    unpermute (rollPerm n a 0) (x0 :: j) = j.insertIdx a x0 := by
+  have hp := rollPerm_isPerm ha (show 0 < n by omega)
+  apply list_eq_of_getD
+  · rw [length_unpermute, hp.1, List.length_insertIdx, if_pos (by omega)]; omega
+  · intro m hm
+    rw [length_unpermute, hp.1] at hm
+    rw [getD_unpermute _ _ _ (by rw [hp.1]; exact hm), idxOf_rollFront ha hm]
+    have hl : m < (j.insertIdx a x0).length := by rw [List.length_insertIdx, if_pos (by omega)]; omega
+    rw [getD_of_lt _ _ hl, List.getElem_insertIdx]
+    split
+    · rename_i h; subst h; simp
+    · split
+      · rename_i h1 h2
+        have hmj : m < j.length := by omega
+        simp [List.getD_eq_getElem?_getD, List.getElem?_eq_getElem hmj]
+      · rename_i h1 h2
+        cases m with
+        | zero => omega
+        | succ m' =>
+          have hmj : m' < j.length := by omega
+          simp [List.getD_eq_getElem?_getD, List.getElem?_eq_getElem hmj]
+
+theorem insertIdx_append_right (x : Nat) : ∀ (A B : List Nat) (t : Nat),
+    (A ++ B).insertIdx (A.length + t) x = A ++ B.insertIdx t x
+  | [], B, t => by simp
+  | a :: A, B, t => by
+    have : (a :: A).length + t = (A.length + t) + 1 := by simp; omega
+    rw [this, List.cons_append, List.insertIdx_succ_cons, insertIdx_append_right x A B t]; rfl
+
+
+theorem permute_rollFront {n a : Nat} (s : Shape) (ha : a < n) (hs : s.length = n) :
+    permute (rollPerm n a 0) s = s.getD a 0 :: s.eraseIdx a := by
+  have hp := rollPerm_isPerm ha (show 0 < n by omega)
+  apply list_eq_of_getD
+  · rw [length_permute, hp.1, List.length_cons, List.length_eraseIdx, if_pos (by omega)]; omega
+  · intro k hk
+    rw [length_permute, hp.1] at hk
+    rw [getD_permute _ _ _ (by rw [hp.1]; exact hk)]
+    have hget : (rollPerm n a 0)[k]'(by rw [hp.1]; exact hk) = rollFn a 0 k := by
+      simp [rollPerm_eq ha (show 0 < n by omega)]
+    rw [hget, rollFn_front]
+    cases k with
+    | zero => simp
+    | succ k' =>
+      have hk' : k' < (s.eraseIdx a).length := by rw [List.length_eraseIdx, if_pos (by omega)]; omega
+      simp only [Nat.add_sub_cancel, Nat.succ_ne_zero, if_false, List.getD_cons_succ]
+      rw [getD_of_lt _ _ hk', List.getElem_eraseIdx]
+      split
+      · exact getD_of_lt _ _ (by omega)
+      · exact getD_of_lt _ _ (by omega)
+
+/-- `np.rollaxis(x, a, 0)`: axis `a` to the front -/
+theorem rollaxis_front {β : Type} (x : Arr β) {a : Nat} (ha : a < x.shape.length) :
+    ∃ y, NpShape.rollaxis x (a : Int) 0 = .ok y ∧ y.shape = x.shape.getD a 0 :: x.shape.eraseIdx a ∧
+      ∀ (x0 : Nat) (j : Index), j.length + 1 = x.shape.length → y.get (x0 :: j) = x.get (j.insertIdx a x0) := by
+  have r := rollaxis_ok x (axis := (a : Int)) (start := 0) (a := a) (s := 0)
+    (by have := normAxis_of_nonneg (n := x.shape.length) (b := (a : Int)) (by omega) (by omega); simpa using this)
+    (by simp) (by omega) (by omega)
+  simp only [Int.toNat_zero, Nat.not_lt_zero, if_false] at r
+  by_cases h0 : a = 0
+  · subst h0
+    rw [if_pos rfl] at r
+    refine ⟨x, r, ?_, fun x0 j _ => by simp⟩
+    cases hs : x.shape with
+    | nil => rw [hs] at ha; simp at ha
+    | cons d ds => simp
+  · rw [if_neg h0] at r
+    refine ⟨_, r, permute_rollFront x.shape ha rfl, fun x0 j hj => ?_⟩
+    show x.get (unpermute _ (x0 :: j)) = _
+    rw [unpermute_rollFront x0 j ha hj]
+
+theorem pyIndex_ok {n : Nat} {i : Int} {k : Nat} (h : pyIndex n i = .ok k) : k < n := by
+  unfold pyIndex at h
+  split at h
+  · injection h with h; subst h; split <;> omega
+  · cases h
+
+/-- op_is_reindex (item part) for `extract_numer` / `to_scalar`, one object: the result drops numerator axis
+    `a1`; element `(i, kk)` comes from `(i, kk with k inserted at a1)`; the leading index `i` and the mask are
+    untouched -/
+theorem extractNumerCore_reindex {q r : Q0 α} {a1 : Nat} {index : Int} {cs : List Cls} (hwf : WF0 q)
+    (ha : a1 < q.numer.length) (h : extractNumerCore q a1 index cs = .ok r) :
+    ∃ k, pyIndex (q.numer.getD a1 0) index = .ok k ∧ k < q.numer.getD a1 0 ∧
+      r.shape = q.shape ∧ r.numer = q.numer.eraseIdx a1 ∧ r.denom = q.denom ∧ r.mask = q.mask ∧ WF0 r ∧
+      ∀ i kk : Index, i.length = q.shape.length → kk.length + 1 = q.item.length →
+        r.vals.get (i ++ kk) = q.vals.get (i ++ kk.insertIdx a1 k) := by
+  unfold extractNumerCore at h
+  simp only at h
+  obtain ⟨rolled, hroll, h⟩ := bind_ok.1 h
+  obtain ⟨k, hk, h⟩ := bind_ok.1 h
+  obtain ⟨obj, h1, h2⟩ := bind_ok.1 h
+  have hvs : q.vals.shape = q.shape ++ (q.numer ++ q.denom) := by rw [hwf.vshape, List.append_assoc]
+  have hlen : q.shape.length + a1 < q.vals.shape.length := by
+    rw [hvs, List.length_append, List.length_append]; omega
+  obtain ⟨y, hy, hysh, hyget⟩ := rollaxis_front q.vals hlen
+  rw [show ((q.shape.length + a1 : Nat) : Int) = ((q.shape.length + a1 : Nat) : Int) from rfl] at hy
+  have e : rolled = y := by
+    have := hroll.symm.trans hy; injection this
+  subst e
+  have hhead : rolled.shape.headD 0 = q.numer.getD a1 0 := by
+    rw [hysh, List.headD_cons, hvs]
+    simp [List.getD_eq_getElem?_getD, List.getElem?_append_right, List.getElem?_append_left ha]
+  rw [hhead] at hk
+  have herase : rolled.shape.tail = q.shape ++ q.numer.eraseIdx a1 ++ q.denom := by
+    rw [hysh, List.tail_cons, hvs, List.eraseIdx_append_of_length_le (by omega), Nat.add_sub_cancel_left,
+      List.eraseIdx_append_of_lt_length ha, List.append_assoc]
+  obtain ⟨_, a1', a2, a3, a4, a5, a6⟩ := construct_split (s := q.shape) (n := q.numer.eraseIdx a1) (d := q.denom)
+    h1 herase (by rw [List.length_eraseIdx, if_pos ha]) rfl hwf.mshape
+  obtain ⟨b1, b2, b3, b4, b5, b6⟩ := cast_keeps a6 cs h2
+  refine ⟨k, hk, pyIndex_ok hk, b2.trans a2, b3.trans a3, b4.trans a4, b5.trans a5, b6, ?_⟩
+  intro i kk hi hkk
+  rw [b1, a1']
+  show rolled.get (k :: (i ++ kk)) = _
+  rw [hyget k (i ++ kk) (by rw [List.length_append, hvs, List.length_append, hi]; unfold Q0.item at hkk; omega),
+    ← hi, insertIdx_append_right]
+
+/-- "Position axis from left" accepts exactly NumPy's range and reads negatives as NumPy does; the result is
+    a fixed point (the recursive calls on derivatives pass `a1`) -/
+theorem itemAxis_ok {rank : Nat} {axis : Int} {a1 : Nat} (h : itemAxis rank axis = .ok a1) :
+    a1 < rank ∧ NpShape.normAxis rank axis = .ok a1 ∧ itemAxis rank (a1 : Int) = .ok a1 := by
+  unfold itemAxis at h
+  simp only at h
+  generalize hA : (if axis ≥ 0 then axis else axis + (rank : Int)) = A at h
+  by_cases c : A < 0 ∨ A ≥ rank
+  · rw [if_pos c] at h; cases h
+  rw [if_neg c] at h
+  injection h with h; subst h
+  refine ⟨by omega, ?_, ?_⟩
+  · unfold NpShape.normAxis
+    have : -(rank : Int) ≤ axis ∧ axis < rank := by split at hA <;> omega
+    rw [if_pos this]
+    congr 1
+    split at hA <;> split <;> omega
+  · unfold itemAxis
+    simp only
+    have e : (if ((A.toNat : Nat) : Int) ≥ 0 then ((A.toNat : Nat) : Int) else ((A.toNat : Nat) : Int) + (rank : Int))
+        = ((A.toNat : Nat) : Int) := if_pos (by omega)
+    rw [e, if_neg (by omega)]
+    simp
+    congr 1
+    omega
+
+/-- `extract_numer(axis, index, classes, recursive=False)` for any `axis` that normalises to `a1` -/
+theorem extractNumer0_reindex {q r : Q0 α} {axis index : Int} {a1 : Nat} {cs : List Cls} (hwf : WF0 q)
+    (hax : itemAxis q.numer.length axis = .ok a1) (h : extractNumer0 q axis index cs = .ok r) :
+    ∃ k, pyIndex (q.numer.getD a1 0) index = .ok k ∧ k < q.numer.getD a1 0 ∧
+      r.shape = q.shape ∧ r.numer = q.numer.eraseIdx a1 ∧ r.denom = q.denom ∧ r.mask = q.mask ∧ WF0 r ∧
+      ∀ i kk : Index, i.length = q.shape.length → kk.length + 1 = q.item.length →
+        r.vals.get (i ++ kk) = q.vals.get (i ++ kk.insertIdx a1 k) := by
+  unfold extractNumer0 at h
+  obtain ⟨a, e, h⟩ := bind_ok.1 h
+  rw [hax] at e; injection e with e; subst e
+  exact extractNumerCore_reindex hwf (itemAxis_ok hax).1 h
+
+/-! ## stack: row k of the result is operand k, projected by the broadcast map -/
+
+theorem mapM_getElem {β γ : Type} {f : β → Except Err γ} : ∀ {l : List β} {r : List γ}, l.mapM f = .ok r →
+    r.length = l.length ∧ ∀ k (h1 : k < l.length) (h2 : k < r.length), f l[k] = .ok r[k]
+  | [], r, h => by
+    rw [List.mapM_nil] at h; rw [← pure_ok.1 h]; exact ⟨rfl, fun k h1 => by simp at h1⟩
+  | x :: xs, r, h => by
+    rw [List.mapM_cons] at h
+    obtain ⟨y, hy, h⟩ := bind_ok.1 h
+    obtain ⟨ys, hys, h⟩ := bind_ok.1 h
+    have := pure_ok.1 h; subst this
+    obtain ⟨hl, hg⟩ := mapM_getElem hys
+    refine ⟨by simp [hl], fun k h1 h2 => ?_⟩
+    cases k with
+    | zero => simpa using hy
+    | succ k' => simpa using hg k' (by simpa using h1) (by simpa using h2)
+
+theorem mapM_some_eq (out : List Int) : ∀ (qs : List (Q0 α)),
+    (qs.map some).mapM (fun a => match a with
+        | none => (pure none : Except Err (Option (Q0 α)))
+        | some q => (broadcastTo0 q out).map some)
+      = (qs.mapM (broadcastTo0 · out)).map (·.map some)
+  | [] => rfl
+  | q :: qs => by
+    rw [List.map_cons, List.mapM_cons, List.mapM_cons, mapM_some_eq out qs]
+    simp only [bind, Except.bind, Except.map, pure, Except.pure]
+    cases broadcastTo0 q out with
+    | error e => rfl
+    | ok b =>
+      simp only
+      cases List.mapM (fun x => broadcastTo0 x out) qs <;> rfl
+
+/-- values and mask of the stacked object, row by row -/
+theorem stackFinal {zero : α} {bs : List (Q0 α)} {out numer denom : Shape} {cls : Cls} {r : Q0 α}
+    (hb : ∀ b ∈ bs, WF0 b ∧ b.shape = out ∧ b.numer = numer ∧ b.denom = denom)
+    (h : construct cls (stackVals zero (out ++ (numer ++ denom)) ((bs.map some).map (·.map (·.vals))))
+          (stackMask out ((bs.map some).map (·.map (·.mask)))) numer.length denom.length = .ok r) :
+    r.shape = bs.length :: out ∧ r.numer = numer ∧ r.denom = denom ∧ WF0 r ∧
+    ∀ k (hk : k < bs.length) (i kk : Index),
+      r.vals.get ((k :: i) ++ kk) = bs[k].vals.get (i ++ kk) ∧ r.mask.at (k :: i) = bs[k].mask.at i := by
+  have hlenv : ((bs.map some).map (·.map (·.vals))).length = bs.length := by simp
+  have hlenm : ((bs.map some).map (·.map (·.mask))).length = bs.length := by simp
+  have hmshape : ∀ a, stackMask out ((bs.map some).map (·.map (·.mask))) = .arr a → a.shape = bs.length :: out := by
+    intro a ha
+    unfold stackMask at ha
+    simp only at ha
+    split at ha
+    · injection ha with ha; subst ha; simp
+    · cases ha
+  obtain ⟨_, a1, a2, a3, a4, a5, a6⟩ := construct_split (s := bs.length :: out) (n := numer) (d := denom) h
+    (by show _ :: (out ++ (numer ++ denom)) = _; rw [hlenv]; simp) rfl rfl hmshape
+  refine ⟨a2, a3, a4, a6, fun k hk i kk => ⟨?_, ?_⟩⟩
+  · rw [a1]
+    show (match ((bs.map some).map (·.map (·.vals)))[k]? with
+      | some (some a) => a.get (i ++ kk)
+      | _ => zero) = _
+    simp [hk]
+  · rw [a5]
+    unfold stackMask
+    simp only
+    split
+    · show (match ((bs.map some).map (·.map (·.mask)))[k]? with
+        | some (some m) => m.at i
+        | _ => false) = _
+      simp [hk]
+    · -- no array mask and not both scalar values: every mask is the same scalar
+      rename_i hc
+      have hmem := List.getElem_mem hk
+      cases hm : bs[k].mask with
+      | arr a =>
+        exfalso; apply hc; left
+        simp only [List.any_map, List.any_eq_true, Function.comp]
+        exact ⟨bs[k], hmem, by simp [hm]⟩
+      | all b =>
+        show (List.any _ _) = b
+        cases b with
+        | true =>
+          simp only [List.any_map, List.any_eq_true, Function.comp]
+          exact ⟨bs[k], hmem, by simp [hm]⟩
+        | false =>
+          rw [Bool.eq_false_iff]
+          intro ht
+          apply hc; right
+          refine ⟨?_, ht⟩
+          simp only [List.any_map, List.any_eq_true, Function.comp]
+          exact ⟨bs[k], hmem, by simp [hm]⟩
+
+
+theorem filterMap_id_map_some (qs : List (Q0 α)) : (qs.map some).filterMap id = qs := by
+  induction qs with
+  | nil => rfl
+  | cons q qs ih => simp [List.filterMap_cons, ih]
+
+/-- **op_is_reindex for `stack`** (operands without place-holders, one object level): row `k` of the result is
+    operand `k` projected by NumPy's broadcast map `bidx` — values with the item index untouched, and the mask,
+    whichever of the three mask constructions (all false / all true / array) the code takes -/
+theorem stack0_reindex {zero : α} {first : Q0 α} {rest : List (Q0 α)} {out : Shape} {r : Q0 α}
+    (hwf : ∀ q ∈ first :: rest, WF0 q ∧ q.numer = first.numer ∧ q.denom = first.denom)
+    (hout : bcastShapes ((first :: rest).map (·.shape)) = .ok out)
+    (hrank : out = [] → ∀ q ∈ first :: rest, q.shape = [])
+    (h : stack0 zero ((first :: rest).map some) = .ok r) :
+    r.shape = (first :: rest).length :: out ∧ r.numer = first.numer ∧ r.denom = first.denom ∧ WF0 r ∧
+    ∀ k (hk : k < (first :: rest).length) (i kk : Index), Valid out i → Valid first.item kk →
+      r.vals.get ((k :: i) ++ kk) = (first :: rest)[k].vals.get (bidx (first :: rest)[k].shape i ++ kk) ∧
+      r.mask.at (k :: i) = (first :: rest)[k].mask.at (bidx (first :: rest)[k].shape i) := by
+  unfold stack0 at h
+  simp only [filterMap_id_map_some] at h
+  have hden : ((first :: rest).any fun q => decide (q.denom ≠ first.denom)) = false := by
+    rw [List.any_eq_false]
+    intro q hq
+    simp [(hwf q hq).2.2]
+  rw [if_neg (by rw [hden]; simp)] at h
+  obtain ⟨out', e, h⟩ := bind_ok.1 h
+  rw [hout] at e; injection e with e; subst e
+  obtain ⟨bs, hbs, h⟩ := bind_ok.1 h
+  have hbs2 : ((first :: rest).mapM (broadcastTo0 · (ofNats out))).map (·.map some) = .ok bs :=
+    (mapM_some_eq (ofNats out) (first :: rest)).symm.trans hbs
+  obtain ⟨bs', hbs', e⟩ := map_ok.1 hbs2
+  subst e
+  obtain ⟨hlen, hget⟩ := mapM_getElem hbs'
+  have hout_map : (ofNats out).map Int.toNat = out := map_toNat_ofNats out
+  have hre : ∀ k (h1 : k < (first :: rest).length) (h2 : k < bs'.length),
+      LeadReindex (bidx (first :: rest)[k].shape) out (first :: rest)[k] bs'[k] := by
+    intro k h1 h2
+    have hq := hwf _ (List.getElem_mem h1)
+    have := broadcastTo0_reindex hq.1
+      (fun e => hrank (by have := congrArg (List.map Int.toNat) e; rwa [hout_map] at this) _ (List.getElem_mem h1))
+      (hget k h1 h2)
+    rwa [hout_map] at this
+  have hb : ∀ b ∈ bs', WF0 b ∧ b.shape = out ∧ b.numer = first.numer ∧ b.denom = first.denom := by
+    intro b hb
+    obtain ⟨k, hk, rfl⟩ := List.mem_iff_getElem.1 hb
+    have hr := hre k (hlen ▸ hk) hk
+    have hq := hwf _ (List.getElem_mem (hlen ▸ hk))
+    exact ⟨hr.wf, hr.shape, hr.numer.trans hq.2.1, hr.denom.trans hq.2.2⟩
+  obtain ⟨s1, s2, s3, s4, s5⟩ := stackFinal (zero := zero) (cls := first.cls) hb h
+  refine ⟨by rw [s1, hlen], s2, s3, s4, fun k hk i kk hi hkk => ?_⟩
+  have hk' : k < bs'.length := hlen ▸ hk
+  obtain ⟨v, m⟩ := s5 k hk' i kk
+  have hr := hre k hk hk'
+  have hq := hwf _ (List.getElem_mem hk)
+  refine ⟨v.trans (hr.vals i kk hi ?_), m.trans (hr.mask i hi)⟩
+  unfold Q0.item at hkk ⊢
+  rw [hq.2.1, hq.2.2]; exact hkk
+
 /-! ## non-vacuity: a concrete object with a derivative goes through the object-level functions -/
 
 def exQ : Q Int :=
